@@ -1,3 +1,3 @@
-CONSTANTS MaxK = 3 Values = {2} Codes = {5} Scope = "run" Mutant = "none"
+CONSTANTS MaxK = 3 Values = {2} Codes = {5} Insts = {1, 2} Scope = "run" Mutant = "none"
 SPECIFICATION Spec
 INVARIANT Emit
